@@ -425,13 +425,13 @@ def _jobs_for(prop, tier):
     if prop == 'C01':
         return jobs_c01(tier) + jobs_carry(tier) + jobs_numpy_getitem(tier) + jobs_option_getitem(tier) + jobs_ellipsis(tier) + jobs_missing(tier) + jobs_advanced(tier)
     if prop == 'C05':
-        return jobs_c05(tier) + [j for j in jobs_option_below(tier) if j[1][3] in ('num', 'localindex')] + jobs_flatten(tier)
+        return jobs_c05(tier) + [j for j in jobs_option_below(tier) if j[1][3] in ('num', 'localindex')] + jobs_flatten(tier) + jobs_axis0(tier, 'localindex')
     if prop == 'C09':
         return jobs_c09(tier) + [j for j in jobs_option_below(tier) if j[1][3] in ('rpad', 'rpad_and_clip')] + jobs_simplify(tier) + jobs_fillna(tier) + jobs_bytemask(tier)
     if prop == 'C11':
         return jobs_simplify(tier)
     if prop == 'C07':
-        return [j for j in jobs_option_below(tier) if j[1][3] == 'combinations'] + jobs_combinations(tier)
+        return [j for j in jobs_option_below(tier) if j[1][3] == 'combinations'] + jobs_combinations(tier) + jobs_axis0(tier, 'combinations')
     if prop == 'C03':
         return jobs_c03(tier) + jobs_option_reduce(tier) + jobs_axis(tier, ('reduce',))
     return {'C02': jobs_c02, 'C03': jobs_c03, 'C04': jobs_c04, 'C06': (lambda t: jobs_c06(t) + jobs_axis(t, ('sort', 'argsort')) + jobs_numpy_sort(t)), 'C08': (lambda t: jobs_c08(t) + jobs_numpy(t) + jobs_union(t) + jobs_reverse_merge(t) + jobs_record_merge(t) + jobs_list_merge(t) + [j for j in jobs_record_named(t) if j[0] is h_record_mergemany_named] + jobs_merge_union(t)), 'C17': jobs_c17, 'C12': jobs_numpy, 'C10': (lambda t: jobs_c10(t) + [j for j in jobs_record_named(t) if j[0] is h_record_field_key] + jobs_project(t) + [j for j in jobs_option_below(t) if j[1][3] == 'getitem_field'] + jobs_record_setitem(t)), 'C05': jobs_c05, 'C09': jobs_c09}.get(prop, lambda t: [])(tier)
@@ -4163,3 +4163,48 @@ def jobs_record_setitem(tier):
     if tier != 'quick':
         q += [(('a', 'b', 'c'), 'd', 0, 0), (('x', 'y'), 'w', 3, -1)]
     return [(h_record_setitem, a, 900) for a in q]
+
+
+# ------------------------------------------------------------------------------------------------ C07 / C05: the axis-0 helpers of Content
+@guard
+def h_axis0(L, what, n=2, replacement=False):
+    """Content::combinations_axis0 / localindex_axis0 on an array of L entries: the combinations are the itertools tuples of the entries
+    themselves, in order, as records whose fields are selections from this very array; the local index is 0..L-1"""
+    import itertools as it
+    comb = it.combinations_with_replacement if replacement else it.combinations
+    ntup = len(list(comb(range(L), n)))
+    nc = NodeCtx(['CNT', 'REC', 'IA', 'NA', 'IDX', 'UTL', 'KD', 'IDS', 'EA'], [], unwind=max(12, 2 * ntup + 2 * L + 4 * n + 12))
+    nc.m.assume(nc.lencontent == L)
+    nc.m.record('ret', {})
+    if what == 'combinations':
+        rl = nc.m.record('recordlookup', {0: (NULL, 8), 8: (NULL, 8)}, const=True)
+        pc_ = {}
+        nc.empty_map(pc_, 0, 'noparams')
+        pm = nc.m.record('noparams', pc_, const=True)
+        cands = [f for mod_ in nc.m.eng.mods for f in mod_.func_src if f.startswith('_ZNK7awkward7Content18combinations_axis0Elb')]
+        out = nc.m.call(cands[0], [Ptr('ret', 0), nc.content0, BV(n), z3.BitVecVal(1 if replacement else 0, 1), rl, pm])
+        want = [[Elem(BV(x)) for x in t] for t in comb(range(L), n)]
+    else:
+        out = nc.m.call('_ZNK7awkward7Content16localindex_axis0Ev', [Ptr('ret', 0), nc.content0])
+        want = [Elem(BV(i)) for i in range(L)]
+    obls = [('does not raise', out.raised)]
+    res = decode(nc, out.mem, nc.m.cell('ret', 0))
+    obls += nodeh.compare_value(res, want)
+
+    def replay(model, ent):
+        if what == 'combinations':
+            prog = 'i64 %s combinations %d %d 0' % (fullnative.ints(range(100, 100 + L)), n, 1 if replacement else 0)
+            exp = [{str(k): 100 + v for k, v in enumerate(t)} for t in comb(range(L), n)]
+        else:
+            prog = 'i64 %s regular 1 %d localindex 0' % (fullnative.ints(range(100, 100 + L)), L)
+            exp = list(range(L))
+        return akrun_check(prog, exp, '%s along axis 0 of %d entries' % (what, L))
+    return mdischarge(nc.m, 'Content::%s_axis0 L=%d%s' % (what, L, (' n=%d replacement=%s' % (n, replacement)) if what == 'combinations' else ''), obls, [], replay=replay,
+                      extra=dict(bounds='%d entries (case split)' % L))
+
+
+def jobs_axis0(tier, what):
+    if what == 'localindex':
+        return [(h_axis0, (L, 'localindex'), 900) for L in ((0, 3) if tier == 'quick' else (0, 1, 2, 3, 5))]
+    Ls = (0, 3) if tier == 'quick' else (0, 1, 2, 3, 4)
+    return [(h_axis0, (L, 'combinations', n, rep), 900) for L in Ls for n in ((2,) if tier == 'quick' else (1, 2, 3)) for rep in (False, True)]
